@@ -211,6 +211,10 @@ func (e *Engine) initExt() {
 			// elements outside [0,len) untouched; a slice of length <= 1 is unchanged
 			vc.fact(Forall([]Term{j}, Imp(Or(Lt(j, Zero), Ge(j, s.len())), Eq(Select(perm, j), Select(Select(cOld, s.arr()), j))), []Term{Select(perm, j)}))
 			vc.fact(Imp(Le(s.len(), One), Eq(perm, Select(cOld, s.arr()))))
+			// a permutation keeps the set of the first len elements
+			if fn, es, ok := vc.esFun(el); ok && len(vc.elemComps(el)) == 1 {
+				vc.fact(Eq(mk(setSort(es), fn, perm, s.len()), mk(setSort(es), fn, Select(cOld, s.arr()), s.len())))
+			}
 			vc.set(st, name, Store(cOld, s.arr(), perm))
 		}
 		return Val{T: rt}
@@ -257,7 +261,35 @@ func (e *Engine) initExt() {
 	})
 
 	// ---- reflect / cmp ----
-	pure([]string{"reflect.DeepEqual", "github.com/google/go-cmp/cmp.Equal"}, "read-only comparison; result unconstrained")
+	pure([]string{"github.com/google/go-cmp/cmp.Equal"}, "read-only comparison; result unconstrained")
+	e.reg("reflect.DeepEqual", "reflect.DeepEqual: read-only; for two []string operands the result is true iff the lengths are equal and the elements agree pairwise (then the element sets agree too); unconstrained for other operands", func(f *Frame, st *State, c *ssa.CallCommon, args []Val, rt types.Type, pos token.Pos) Val {
+		v := freshResult(f, st, rt, "deepequal")
+		if c == nil || len(c.Args) != 2 {
+			return v
+		}
+		ma, ok1 := c.Args[0].(*ssa.MakeInterface)
+		mb, ok2 := c.Args[1].(*ssa.MakeInterface)
+		if !ok1 || !ok2 {
+			return v
+		}
+		sa, okA := ma.X.Type().Underlying().(*types.Slice)
+		sb, okB := mb.X.Type().Underlying().(*types.Slice)
+		if !okA || !okB || !isStringT(sa.Elem()) || !isStringT(sb.Elem()) {
+			return v
+		}
+		vc := f.vc
+		a, b := f.val(ma.X), f.val(mb.X)
+		comp := vc.get(st, vc.elemComps(sa.Elem())[0])
+		ra, rb := Select(comp, a.arr()), Select(comp, b.arr())
+		j := Term{"j!q", SInt}
+		same := Forall([]Term{j}, Imp(And(Le(Zero, j), Lt(j, a.len())), Eq(Select(ra, j), Select(rb, j))), []Term{Select(ra, j)}, []Term{Select(rb, j)})
+		// (nil and empty slices differ for DeepEqual; only the implication from true is stated)
+		vc.fact(Imp(And(st.reach, v.one()), And(Eq(a.len(), b.len()), same)))
+		if fn, es, ok := vc.esFun(sa.Elem()); ok {
+			vc.fact(Imp(And(st.reach, v.one()), Eq(mk(setSort(es), fn, ra, a.len()), mk(setSort(es), fn, rb, b.len()))))
+		}
+		return v
+	})
 
 	// ---- time / timestamps ----
 	pure([]string{"time.Now", "time.Parse",
